@@ -142,6 +142,10 @@ type Driver struct {
 	reqSup   int
 	respSup  int
 	loggedPL bool
+	// a reader obtained after the first successful write of each side and kept while more bytes arrive:
+	// what it delivers in the end must be what a fresh reader delivers
+	heldReq, heldResp       io.Reader
+	heldReqGot, heldRespGot []byte
 }
 
 // NewDriver compiles the configuration and starts a transaction.
@@ -208,6 +212,27 @@ func (d *Driver) Do(c Call) (eng.Intr, int, string) {
 	if err != nil {
 		es = err.Error()
 	}
+	if d.itx != nil && it == nil && err == nil {
+		hold := func(get func() (io.Reader, error), held *io.Reader, got *[]byte) {
+			if *held != nil {
+				return
+			}
+			r, e := get()
+			if e != nil || r == nil {
+				return
+			}
+			one := make([]byte, 1)
+			if k, _ := r.Read(one); k == 1 { // the reader is in use from now on
+				*held, *got = r, append(*got, one[0])
+			}
+		}
+		switch c.Name {
+		case "WREQ":
+			hold(d.itx.RequestBodyReader, &d.heldReq, &d.heldReqGot)
+		case "WRESP":
+			hold(d.itx.ResponseBodyReader, &d.heldResp, &d.heldRespGot)
+		}
+	}
 	return toIntr(it), n, es
 }
 
@@ -235,6 +260,24 @@ func (d *Driver) Project() (Post, []byte, []byte, string) {
 		}
 		reqB = readEveryWay(d.itx.RequestBodyReader)
 		respB = readEveryWay(d.itx.ResponseBodyReader)
+		// the reader that was handed out early and kept: drained now, it has delivered the stored bytes
+		drain := func(held io.Reader, got []byte, stored []byte) []byte {
+			if held == nil {
+				return stored
+			}
+			rest, _ := io.ReadAll(held)
+			all := append(append([]byte{}, got...), rest...)
+			if bytes.Equal(all, stored) {
+				return stored
+			}
+			if len(all) == len(stored) {
+				return append(all, 0)
+			}
+			return all
+		}
+		reqB = drain(d.heldReq, d.heldReqGot, reqB)
+		respB = drain(d.heldResp, d.heldRespGot, respB)
+		d.heldReq, d.heldResp = nil, nil
 		v := d.itx.Variables()
 		p.ReqErr = v.InboundDataError().Get() == "1"
 		p.RespErr = v.OutboundDataError().Get() == "1"
